@@ -28,7 +28,7 @@ func (c20) Cases(tier string) int {
 }
 
 func (c20) Rule() string {
-	return "L1.routing: the routing table handed to the planner against the Lean routing model computed from the service schemas (what a service offers is what its schema declares); L2.new-options: 2 random option lists per case through gateway.New against Nw.build (the installed planner is told the last priority list wherever its option stands); federations with 35% multi-homed fields and priorities (absent, partial, total, naming unknown services; the priorities option given to gateway.New after or before the planner option) x queries writing fields plain, inside inline fragments (typed/untyped/nested) and inside named fragments; planning only; every field occurrence of every plan step is checked against the Lean chooser evaluated on the routing table captured through WithPlanner (parent = the location of the enclosing object's step); non-trivial = at least one multi-homed field decided; distinct = distinct (federation, priorities, query)"
+	return "L1.routing: the routing table handed to the planner against the Lean routing model computed from the service schemas (what a service offers is what its schema declares); L2.new-options: 2 random option lists per case through gateway.New against Nw.build (the installed planner is told the last priority list wherever its option stands); federations with 35% multi-homed fields and priorities (absent, partial, total, naming unknown services; the priorities option given to gateway.New after or before the planner option) x queries writing fields plain, inside inline fragments (typed/untyped/nested) and inside named fragments; planning only; every field occurrence of every plan step is checked against the Lean chooser evaluated on the routing table captured through WithPlanner (parent = the location of the enclosing object's step); non-trivial = at least one multi-homed field decided; distinct = distinct (federation, priorities, query); a third of the priority lists get blank, unknown or repeated entries at random places"
 }
 
 type placedField struct {
